@@ -358,7 +358,7 @@ def specs(ctx):
             window, wlabel = (ra0, ra1, d0, d1), "random"
         attrs = rng.choice(["none", "w", "z", "both", "both", "both"])
         m = rng.choice([1, 2, 5, 17]) if attrs != "none" else 0
-        ncent = rng.choice([1, 1, 2, 3])
+        ncent = rng.choice([1, 1, 2, 3]) if n >= 16 else 1   # a centre without any point must be refused (C09/C12)
         centers = []
         for _ in range(ncent):
             centers.append([window[0] + (window[1] - window[0]) * rng.randrange(0, 9) / 8.0,
@@ -417,6 +417,10 @@ def run(ctx):
         try:
             term, dterm, replay = one_case(ctx, spec, idx, Logged, Plain, pool)
         except Exception as e:  # a valid request must not raise
+            if isinstance(e, ValueError) and spec.get("centers") and ("contains no data" in str(e) or "patch centers and patch IDs with data do not match" in str(e)):
+                # one of the given centres attracted no random point: creation must refuse (C09/C12)
+                ctx.bump("skipped_empty_centre")
+                continue
             ctx.count(key=repr(sorted(spec.items())), kind="raised")
             ctx.fail("c16-raises:%s" % type(e).__name__,
                      "creating a random catalog for a valid request raised %s: %s" % (type(e).__name__, e),
